@@ -23,6 +23,7 @@ POINTER = ['IsRoot', 'Count', 'Back', 'Front', 'SplitFront', 'SplitAt', 'SplitBa
            'EndsWith', 'StartsWith', 'Intersection']
 WALKS = ['ParseIndex', 'ResolveJson', 'ResolveMutJson', 'ResolveToml', 'ResolveMutToml']
 DELETE = ['DeleteJson', 'DeleteToml', 'SplitBack']
+EXPAND = ['ExpandJson', 'ExpandToml', 'SplitBack']
 BUF = ['FromTokens', 'PushFront', 'PushBack', 'PopBack', 'Append', 'Clear', 'PopFront', 'Replace']
 def _u(*ls):
     out = []
@@ -35,14 +36,14 @@ PROP_FUNCS = {
     'C01': _u(['ValidateBytes'], TOKEN, SLICE, POINTER, BUF),
     'C11': _u(BUF, ['IsRoot', 'Count']),
     'C02': ['ValidateBytes'], 'C14': ['ValidateBytes'],
-    'C05': _u(WALKS, ['IndexFromStr', 'ForLen']), 'C09': _u(WALKS, DELETE, ['IndexFromStr', 'ForLen']), 'C15': _u(WALKS, ['IndexFromStr', 'ForLen']),
-    'C08': _u(WALKS, DELETE, ['IndexFromStr', 'ForLen']), 'C10': _u(WALKS, DELETE, ['IndexFromStr', 'ForLen']),
-    'C06': ['IndexFromStr', 'ForLenIncl'], 'C07': ['IndexFromStr', 'ForLenIncl'],
+    'C05': _u(WALKS, ['IndexFromStr', 'ForLen']), 'C09': _u(WALKS, DELETE, EXPAND, ['IndexFromStr', 'ForLen']), 'C15': _u(WALKS, ['IndexFromStr', 'ForLen']),
+    'C08': _u(WALKS, DELETE, ['IndexFromStr', 'ForLen']), 'C10': _u(WALKS, DELETE, EXPAND, ['IndexFromStr', 'ForLen']),
+    'C06': _u(EXPAND, ['IndexFromStr', 'ForLenIncl']), 'C07': _u(EXPAND, ['IndexFromStr', 'ForLenIncl']),
     'C03': TOKEN, 'C04': _u(ACCESS, ['FromTokens']), 'C12': _u(SLICE, SPLITS), 'C13': _u(RELS, ['Append']), 'C16': INDEX,
     'C19': _u(TOKEN, SLICE, SPLITS, RELS, ACCESS),
 }
 TRANSPORT_MEMBERS = {'TransportValidate': ['ValidateBytes'], 'TransportToken': TOKEN, 'TransportSlice': SLICE, 'TransportIndex': INDEX,
-                     'TransportPointer': POINTER, 'TransportResolve': WALKS, 'TransportBuf': BUF, 'TransportDelete': ['DeleteJson', 'DeleteToml']}
+                     'TransportPointer': POINTER, 'TransportResolve': WALKS, 'TransportBuf': BUF, 'TransportDelete': ['DeleteJson', 'DeleteToml'], 'TransportExpand': ['ExpandJson', 'ExpandToml']}
 TIE_THEOREMS = {
     'ValidateBytes': ['Jp.Tie.validate_bytes_eq', 'Jp.Tie.validate_bytes_nil'], 'FromEncoded': ['Jp.Tie.from_encoded_eq'],
     'TokenNew': ['Jp.Tie.new_eq'], 'Decoded': ['Jp.Tie.decoded_eq'], 'ForLen': ['Jp.Tie.for_len_eq'],
@@ -59,6 +60,7 @@ TIE_THEOREMS = {
     'PopBack': ['Jp.Tie.pop_back_eq'], 'Append': ['Jp.Tie.append_eq'], 'Clear': ['Jp.Tie.clear_eq'],
     'PopFront': ['Jp.Tie.pop_front_eq'], 'Replace': ['Jp.Tie.replace_eq'],
     'IndexFromStr': ['Jp.Tie.index_from_str_eq'],
+    'ExpandJson': ['Jp.Tie.expand_json_eq'], 'ExpandToml': ['Jp.Tie.expand_toml_eq'],
     'DeleteJson': ['Jp.Tie.delete_json_eq'], 'DeleteToml': ['Jp.Tie.delete_toml_eq'],
     'ParseIndex': ['Jp.Tie.parse_index_eq'], 'ResolveJson': ['Jp.Tie.resolve_json_eq', 'Jp.Tie.resolve_json_loop'],
     'ResolveMutJson': ['Jp.Tie.resolve_mut_json_eq'], 'ResolveToml': ['Jp.Tie.resolve_toml_eq'], 'ResolveMutToml': ['Jp.Tie.resolve_mut_toml_eq'],
@@ -75,6 +77,7 @@ TRANSPORT_THEOREMS = {
                          'gen_intersection_lcp', 'gen_intersection_comm', 'gen_split_at_iff', 'gen_split_at_concat'],
     'TransportBuf': ['gen_buf_step_eq', 'gen_step_refines', 'gen_from_tokens_tokens', 'gen_append_tokens', 'gen_append_root',
                      'run_gen_buf_eq', 'gen_history_refines'],
+    'TransportExpand': ['gen_expand_json_spec', 'gen_expand_backends_agree'],
     'TransportDelete': ['gen_delete_json', 'gen_delete_toml', 'gen_delete_some_iff_resolves', 'gen_delete_none_unchanged',
                         'gen_delete_no_panic', 'gen_delete_backends_agree'],
     'TransportResolve': ['gen_resolve_json', 'gen_resolve_mut_json', 'gen_resolve_toml', 'gen_resolve_mut_toml', 'gen_four_walks_agree',
